@@ -10,6 +10,7 @@ not raise, must never record a wrong input, must keep the inverse index exact, a
 refresh.
 Request: {"mode": "c08"|"c09", "rounds": n, "seed": s}.'''
 import asyncio
+from _watchdog import guarded, ScenarioHang
 import hashlib
 import json
 import logging
@@ -291,7 +292,9 @@ def main():
     seed0 = int(req.get('seed') or 0) * 7919
     for i in range(rounds):
         try:
-            desc, bad = run_one(seed0 + i, races=(mode == 'c09'))
+            desc, bad = guarded(run_one, seed0 + i, mode == 'c09')
+        except ScenarioHang:
+            desc, bad = {'seed': seed0 + i}, 'the refresh did not finish within 120 s (normal: < 1 s)'
         except BaseException as e:   # noqa
             import traceback
             desc, bad = {'seed': seed0 + i}, f'scenario raised {e!r}: {traceback.format_exc()[-500:]}'
